@@ -218,6 +218,12 @@ SIG = {
                            [('hashlib_sha256', 'Bytes → Bytes'), ('OPS', 'List (String × Bytes)'), ('self_key_bytes', 'Bytes'),
                             ('pubkey_bytes', 'Bytes'), ('tx_digest', 'Bytes'), ('sighash', 'Int'), ('scripts', 'Py.PyScripts'),
                             ('tweak', 'Bool')], 'Bytes'),
+    # addresses derived from a public key: the hash160 check (a real string: len, int(., 16) under try/except), the constructor called
+    # with hash160 only (what self.hash160 is set to), PublicKey.get_address (the stored hex string of the P2PKH address object)
+    'is_hash160_valid': ('keys.py', 'Address._is_hash160_valid', [('hash160', 'List Char')], 'Bool'),
+    'address_init_hash160': ('keys.py', 'Address.__init__', [('hash160', 'List Char')], 'List Char'),
+    'pubkey_get_address': ('keys.py', 'PublicKey.get_address',
+                           [('hashlib_sha256', 'Bytes → Bytes'), ('self_key_string', 'Bytes'), ('compressed', 'Bool')], 'List Char'),
     # the public signing methods: digest of the transaction object (its fields as parameters tx_*), then the private signer
     'pk_sign_input': ('keys.py', 'PrivateKey.sign_input',
                       [('hashlib_sha256', 'Bytes → Bytes'), ('OPS', 'List (String × Bytes)'),
@@ -252,7 +258,7 @@ SCH_CALLS = {'tagged_hash': ('schnorr_tagged_hash', True), 'bytes_from_int': ('s
              'has_even_y': ('schnorr_has_even_y', False)}
 SCH_BYTES = {'tagged_hash', 'bytes_from_int', 'bytes_from_point', 'xor_bytes'}
 POINT = 'Option (Int × Int)'
-PUBFUNS = {'pubkey_to_hex', 'pubkey_to_x_only_hex', 'pubkey_is_y_even', 'pubkey_to_hash160'}
+PUBFUNS = {'pubkey_to_hex', 'pubkey_to_x_only_hex', 'pubkey_is_y_even', 'pubkey_to_hash160', 'pubkey_get_address'}
 # record types: field order of the call `<obj>.to_bytes()` on a loop variable
 REC_TYPE = {'txinput_to_bytes': 'Py.PyTxIn', 'txoutput_to_bytes': 'Py.PyTxOut', 'txwitness_to_bytes': 'Py.PyWit'}
 TOK_FIELDS = {'script_pubkey', 'script_sig'}
@@ -266,7 +272,8 @@ STRFUNS = {'bech32_encode': {'combined': 'List Int'},
            'bech32_decode': {'pos': 'Int', 'hrp': 'List Char', 'data': 'List Int', 'spec': 'Option Int'},
            'segwit_decode': {'hrpgot': 'Option (List Char)', 'data': 'Option (List Int)', 'spec': 'Option Int', 'decoded': 'Option (List Int)'},
            'segwit_encode': {'spec': 'Int', 'ret': 'List Char'},
-           'pubkey_from_hex': {'first_byte_in_hex': 'List Char', 'y_values': 'List Int'}}
+           'pubkey_from_hex': {'first_byte_in_hex': 'List Char', 'y_values': 'List Int'},
+           'is_hash160_valid': {}, 'address_init_hash160': {}, 'pubkey_get_address': {'addr_string_hex': 'List Char'}}
 STR_DEFAULT = {'Int': '(0 : Int)', 'List Char': '([] : List Char)', 'List Int': '([] : List Int)'}
 # callees by Python name inside bech32.py: (generated name, returns an Option?)
 STR_CALLS = {'bech32_create_checksum': ('bech32_create_checksum', False), 'bech32_verify_checksum': ('bech32_verify_checksum', True),
@@ -281,7 +288,7 @@ NONLOCAL_STATE = {'traverse_level': 'traversed'}
 # utils.py's tweak functions: which locals are curve points; hex strings (of an even number of digits) are modelled as the bytes they denote
 TWEAKFUNS = {'negate_privkey': set(), 'tweak_taproot_pubkey': {'P', 'Q'}, 'tweak_taproot_privkey': set(), 'blockheader_target': set(),
              'pubkey_to_hex': set(), 'pubkey_to_x_only_hex': set(), 'pubkey_is_y_even': set(), 'pubkey_to_hash160': set(),
-             'pubkey_from_hex': set()}
+             'pubkey_from_hex': set(), 'pubkey_get_address': set()}
 TWEAK_CALLS = {'point_add': 'schnorr_point_add', 'point_mul': 'schnorr_point_mul', 'full_pubkey_gen': 'schnorr_full_pubkey_gen',
                'negate_privkey': 'negate_privkey'}
 # parsers: `x.hex()` of bytes is the same data (hex strings are modelled as the bytes they denote), struct.unpack_from
@@ -537,6 +544,15 @@ class Tr:
                 return s.eff(f'Py.unwrap {t}') if opt else t
             if f == 'len' and len(a) == 1 and s.str_type(a[0]) in ('chars', 'ints', 'opt'):
                 return f'((List.length {s.e(a[0])} : Nat) : Int)'
+            if (f == '_is_hash160_valid' and len(a) == 1 and not n.keywords and s.name == 'address_init_hash160'
+                    and s.str_type(a[0]) == 'chars'):
+                return s.eff(f'is_hash160_valid {s.e(a[0])}')        # (self.… inside __init__ was rewritten to a plain name)
+            if (f == 'b_to_h' and len(a) == 1 and not n.keywords and s.name == 'pubkey_get_address' and s.isbytes(a[0])):
+                return f'(Py.hexOf {s.e(a[0])})'            # the hex string itself (it is handed to code that inspects its characters)
+            if (f == 'P2pkhAddress' and s.name == 'pubkey_get_address' and not a and len(n.keywords) == 1 and n.keywords[0].arg == 'hash160'
+                    and s.str_type(n.keywords[0].value) == 'chars'):
+                s.check_subclass_ctor('P2pkhAddress', ['address', 'hash160'])
+                return s.eff(f'address_init_hash160 {s.e(n.keywords[0].value)}')
             if f == 'h_to_b' and len(a) == 1 and not n.keywords and s.str_type(a[0]) == 'chars':
                 return s.eff(f'Py.bytesFromhex {s.e(a[0])}')            # bytes.fromhex of a real string
             if (f == 'int' and len(a) == 2 and not n.keywords and isinstance(a[1], ast.Constant) and a[1].value == 16
@@ -547,6 +563,12 @@ class Tr:
                 return f'(sqrt_mod {s.e(a[0])} {s.e(a[1])})'           # all_roots=True: the sorted list of all roots
         if isinstance(n, ast.Call) and isinstance(n.func, ast.Attribute):
             f = n.func
+            if (f.attr == '_is_hash160_valid' and isinstance(f.value, ast.Name) and f.value.id == 'self' and len(n.args) == 1 and not n.keywords
+                    and s.name == 'address_init_hash160' and s.str_type(n.args[0]) == 'chars'):
+                return s.eff(f'is_hash160_valid {s.e(n.args[0])}')
+            if (f.attr == '_to_hash160' and isinstance(f.value, ast.Name) and f.value.id == 'self' and len(n.args) == 1 and not n.keywords
+                    and s.name == 'pubkey_get_address'):
+                return s.eff(f'pubkey_to_hash160 hashlib_sha256 self_key_string {s.cond(n.args[0])}')
             if f.attr in ('lower', 'upper', 'strip') and not n.args and not n.keywords and s.str_type(f.value) == 'chars':
                 return s.eff(f'Py.str{f.attr.capitalize()} {s.e(f.value)}')
             if (f.attr == 'startswith' and len(n.args) == 1 and not n.keywords and isinstance(n.args[0], ast.Constant)
@@ -630,7 +652,7 @@ class Tr:
         if isinstance(n, ast.Call) and isinstance(n.func, ast.Name) and n.func.id == 'negate_privkey' and len(n.args) == 1:
             return s.eff(f'negate_privkey {s.e(n.args[0])}')
         if (isinstance(n, ast.Call) and isinstance(n.func, ast.Name) and n.func.id == 'b_to_h' and len(n.args) == 1 and not n.keywords
-                and s.isbytes(n.args[0])):
+                and s.isbytes(n.args[0]) and s.name != 'pubkey_get_address'):
             return s.e(n.args[0])           # b_to_h(<bytes>): the hex string that denotes them
         if (isinstance(n, ast.Subscript) and isinstance(n.slice, ast.Slice) and n.slice.step is None and s.hexbytes(n.value) is not None):
             lo, up = n.slice.lower, n.slice.upper
@@ -1161,6 +1183,28 @@ class Tr:
                         return
         s.fail(n, f'class {cls} not found')
 
+    def check_subclass_ctor(s, cls, params):
+        """`cls.__init__(self, p1=None, …)` only forwards its parameters to the base constructor under the same names"""
+        for c in s.tree.body:
+            if isinstance(c, ast.ClassDef) and c.name == cls:
+                for m in c.body:
+                    if isinstance(m, ast.FunctionDef) and m.name == '__init__':
+                        names = [a.arg for a in m.args.args[1:]]
+                        body = [st for st in m.body if not (isinstance(st, ast.Expr) and isinstance(st.value, ast.Constant))]
+                        ok = (names == params and len(m.args.defaults) == len(params)
+                              and all(isinstance(d, ast.Constant) and d.value is None for d in m.args.defaults)
+                              and len(body) == 1 and isinstance(body[0], ast.Expr) and isinstance(body[0].value, ast.Call))
+                        if ok:
+                            c_ = body[0].value
+                            ok = (isinstance(c_.func, ast.Attribute) and c_.func.attr == '__init__' and isinstance(c_.func.value, ast.Call)
+                                  and getattr(c_.func.value.func, 'id', '') == 'super' and not c_.func.value.args and not c_.args
+                                  and sorted(k.arg for k in c_.keywords) == sorted(params)
+                                  and all(isinstance(k.value, ast.Name) and k.value.id == k.arg for k in c_.keywords))
+                        if not ok: s.fail(m, f'{cls}.__init__ does more than forward {params} to the base constructor')
+                        if [b_.id for b_ in c.bases if isinstance(b_, ast.Name)] != ['Address']: s.fail(c, f'{cls} base class')
+                        return
+        s.fail(s.fnode, f'class {cls} not found')
+
     def recsub(s, n):
         """`self.<record list>[i]` -> the name of the record-list parameter"""
         if (isinstance(n, ast.Subscript) and isinstance(n.value, ast.Attribute) and isinstance(n.value.value, ast.Name)
@@ -1222,7 +1266,7 @@ class Tr:
             nm = f.attr if isinstance(f, ast.Attribute) else getattr(f, 'id', '')
             if nm == 'hex' and s.name in PARSERS and isinstance(f, ast.Attribute): return s.isbytes(f.value)
             if nm == 'full_pubkey_gen' and s.name in TWEAKFUNS: return True
-            if s.name in PUBFUNS and nm in ('to_string', 'to_hex'): return True
+            if s.name in PUBFUNS and nm in ('to_string', 'to_hex', '_to_hash160'): return True
             if s.name in WRAPFUNS and (nm in TX_METHODS or nm in SELF_SIGNERS): return True
             if s.name == 'sign_input' and nm in ('sign_digest_deterministic', 'sigencode_der'): return True
             if s.name in ('from_wif', 'to_wif', 'is_address_valid', 'address_to_hash160') and nm in ('b58decode',): return True
@@ -1243,7 +1287,7 @@ class Tr:
             return t
         if isinstance(n, ast.Constant) and isinstance(n.value, bool): return t
         if s.name in STRFUNS and isinstance(n, ast.Call) and isinstance(n.func, ast.Name) and n.func.id in ('any', 'all'): return t
-        if isinstance(n, ast.Call) and isinstance(n.func, ast.Name) and n.func.id in ('isinstance', 'is_infinite', 'has_even_y', 'schnorr_verify'): return t
+        if isinstance(n, ast.Call) and isinstance(n.func, ast.Name) and n.func.id in ('isinstance', 'is_infinite', 'has_even_y', 'schnorr_verify', '_is_hash160_valid'): return t
         if t.startswith('(Py.tokInTable') or t.startswith('(Py.inTableB') or t.startswith('(Py.bytesLt') or t.startswith('(Py.strStartswith') or t.startswith('(List.any (String.toList'): return t
         if isinstance(n, ast.Name) and n.id in s.boolvars: return t
         if isinstance(n, ast.Attribute) and 'self_' + n.attr in s.boolvars: return t
@@ -1738,6 +1782,20 @@ class Tr:
             out += [f'{ind}  if !{c} then break', f'{ind}  if fuel_ == {bound} then throw PyErr.fellThrough']
             out += s.block(st.body, ind + '  ')
             return out
+        if (isinstance(st, ast.Try) and len(st.handlers) == 1 and not st.orelse and not st.finalbody and len(st.body) == 2
+                and isinstance(st.body[0], ast.Expr) and isinstance(st.body[1], ast.Return) and isinstance(st.body[1].value, ast.Constant)
+                and isinstance(st.handlers[0].type, ast.Name) and st.handlers[0].type.id == 'ValueError' and len(st.handlers[0].body) == 1
+                and isinstance(st.handlers[0].body[0], ast.Return) and isinstance(st.handlers[0].body[0].value, ast.Constant)):
+            # try: f(x); return A  except ValueError: return B     — only a ValueError is caught, anything else (also `unsupported`) propagates
+            saved = s.pre; s.pre = []
+            s.e(st.body[0].value)
+            eff = s.pre; s.pre = saved
+            if len(eff) != 1: s.fail(st, 'try body with more than one call that can raise')
+            m = _re.fullmatch(r'let (t\d+) ← (.*)', eff[0])
+            if not m: s.fail(st, 'effect of an unexpected form inside try')
+            a_ = s.e(st.body[1].value); b_ = s.e(st.handlers[0].body[0].value)
+            return s.flush(ind) + [f'{ind}match {m[2]} with', f'{ind}| .ok _ => return {a_}', f'{ind}| .error PyErr.valueError => return {b_}',
+                                   f'{ind}| .error e_ => throw e_']
         if isinstance(st, ast.Try):
             # try: <simple statements> except Exception [as e]: print(..)…; break      — directly inside a `for`
             # Every call that can raise inside the body is bound as a value first; on an exception the handler's `break` runs.  The
@@ -1770,6 +1828,42 @@ class Tr:
             if st.orelse: out += [f'{ind}else'] + s.block(st.orelse, ind + '  ')
             return out
         s.fail(st, 'statement')
+
+    def ctor_branch(s, node, param, others, field):
+        """A constructor called with `param` only — the parameters `others` keep their default None.  The body must be one
+        `if param: … elif <other>: … … else: raise …` chain; the `elif`s test parameters that are None, so the translation keeps the first
+        branch and the final raise.  `self.<field> = E` as the last thing a path does becomes `return E`."""
+        body = [st for st in node.body if not (isinstance(st, ast.Expr) and isinstance(st.value, ast.Constant))]
+        defaults = {a.arg: d for a, d in zip(node.args.args[-len(node.args.defaults):], node.args.defaults)} if node.args.defaults else {}
+        for k in others:
+            if not (k in defaults and isinstance(defaults[k], ast.Constant) and defaults[k].value is None):
+                s.fail(node, f'constructor parameter {k} no longer defaults to None')
+        if not (len(body) == 1 and isinstance(body[0], ast.If) and isinstance(body[0].test, ast.Name) and body[0].test.id == param):
+            s.fail(node, f'constructor shape: if {param}')
+        top = body[0]; cur = top
+        while True:
+            if len(cur.orelse) == 1 and isinstance(cur.orelse[0], ast.If) and isinstance(cur.orelse[0].test, ast.Name) \
+                    and cur.orelse[0].test.id in others:
+                cur = cur.orelse[0]; continue
+            break
+        if not (len(cur.orelse) == 1 and isinstance(cur.orelse[0], ast.Raise)): s.fail(node, 'constructor shape: final else raise')
+        for x in ast.walk(ast.Module(body=top.body, type_ignores=[])):
+            if isinstance(x, ast.Name) and x.id in others: s.fail(x, 'the branch reads a parameter that is None')
+        def is_store(st):
+            return (isinstance(st, ast.Assign) and len(st.targets) == 1 and isinstance(st.targets[0], ast.Attribute)
+                    and isinstance(st.targets[0].value, ast.Name) and st.targets[0].value.id == 'self' and st.targets[0].attr == field)
+        def tail(block):
+            if not block: return
+            last = block[-1]
+            if is_store(last): block[-1] = ast.copy_location(ast.Return(value=last.value), last)
+            elif isinstance(last, ast.If): tail(last.body); tail(last.orelse)
+        tail(top.body)
+        top.orelse = [cur.orelse[0]]
+        for x in ast.walk(top):
+            if isinstance(x, ast.Attribute) and isinstance(x.value, ast.Name) and x.value.id == 'self' and isinstance(x.ctx, ast.Store):
+                s.fail(x, 'self.* stored other than as the final assignment of a path')
+        node.body = [top]
+        return node
 
     def ctor_hex_branch(s, node):
         """PublicKey.__init__ called as PublicKey(hex_str) with a str — message and signature keep their default None.  The body must be
@@ -1981,6 +2075,8 @@ class Tr:
             node = RC().visit(node)
         if s.name == 'pubkey_from_hex':
             node = s.ctor_hex_branch(node)
+        if s.name == 'address_init_hash160':
+            node = s.ctor_branch(node, 'hash160', ['address', 'script'], 'hash160')
         strpre = []
         if s.name in STRFUNS:
             for nm, T_ in STRFUNS[s.name].items():
